@@ -103,6 +103,32 @@ def generic_ops(msg, rng, want):
     return ops
 
 
+SNI_HOSTILE = [
+    ("digits60_then_letter", b"1" * 60 + b"x.example.com"),
+    ("digits200_then_letter", b"1" * 200 + b"a"),
+    ("digit_dot_x100_then_letter", b"1." * 100 + b"a"),
+    ("digits_hyphen_mix", b"1-" * 30 + b"1.example"),
+    ("hyphens60", b"-" * 60 + b".example"),
+    ("labels63_total253", b".".join([b"a" * 63] * 3) + b"." + b"b" * 61),
+    ("total254", b".".join([b"a" * 63] * 3) + b"." + b"b" * 62),
+    ("label64", b"a" * 64 + b".example"),
+    ("many_labels", b"a." * 126 + b"a"),
+    ("all_numeric", b"1234.5678"),
+    ("ip_like", b"10.0.0.1"),
+    ("trailing_dot", b"server.example."),
+    ("two_trailing_dots", b"server.example.."),
+    ("leading_dot", b".server.example"),
+    ("empty_label", b"server..example"),
+    ("nul_inside", b"server\x00.example"),
+    ("non_ascii", b"s\xc3\xa9rver.example"),
+    ("byte_ff", b"\xff" * 40),
+    ("underscore", b"_srv.example"),
+    ("space", b"server example"),
+    ("long_60000_digits_letter", b"7" * 60000 + b"z"),
+    ("long_60000_labels", b"a." * 30000),
+]
+
+
 def hello_ops(msg, rng, is_client):
     """extension-level operators for ClientHello / ServerHello"""
     t = msg[0]
@@ -165,6 +191,18 @@ def hello_ops(msg, rng, is_client):
             nd[2:4] = b"\xfe\xfe"
             hh.exts = ex[:idx] + [(et, bytes(nd))] + ex[idx + 1:]
             out("ext_first_value_unknown:%d" % et, hh)
+    if is_client and not (ex and ex[-1][0] == 41):
+        # server_name: host names of hostile shapes, well framed (valid ones
+        # included: the name is validated before anything else is decided)
+        for nm, host in SNI_HOSTILE:
+            body_ = b"\x00" + wire.p16(len(host)) + host
+            ed = wire.p16(len(body_)) + body_
+            hh = copy.copy(h)
+            if any(et == 0 for et, _ in ex):
+                hh.exts = [(et, ed if et == 0 else d) for et, d in ex]
+            else:
+                hh.exts = [(0, ed)] + ex
+            out("sni:" + nm, hh)
     if is_client and ex and ex[-1][0] == 41:
         # pre_shared_key: well-framed variants of the offer itself
         try:
@@ -465,6 +503,31 @@ def der_replace(der, nodes, idx, new_tlv):
     return out
 
 
+OIDS = [
+    ("prime239v1", bytes.fromhex("2A8648CE3D030104")),
+    ("prime192v1", bytes.fromhex("2A8648CE3D030101")),
+    ("prime256v1", bytes.fromhex("2A8648CE3D030107")),
+    ("secp224r1", bytes.fromhex("2B81040021")),
+    ("secp256k1", bytes.fromhex("2B8104000A")),
+    ("sect163k1", bytes.fromhex("2B81040001")),
+    ("secp384r1", bytes.fromhex("2B81040022")),
+    ("secp521r1", bytes.fromhex("2B81040023")),
+    ("brainpoolP160r1", bytes.fromhex("2B2403030208010101")),
+    ("brainpoolP256r1", bytes.fromhex("2B2403030208010107")),
+    ("ed25519", bytes.fromhex("2B6570")),
+    ("ed448", bytes.fromhex("2B6571")),
+    ("x25519", bytes.fromhex("2B656E")),
+    ("rsaEncryption", bytes.fromhex("2A864886F70D010101")),
+    ("rsassaPss", bytes.fromhex("2A864886F70D01010A")),
+    ("sha256WithRSA", bytes.fromhex("2A864886F70D01010B")),
+    ("dsa", bytes.fromhex("2A8648CE380401")),
+    ("ecPublicKey", bytes.fromhex("2A8648CE3D0201")),
+    ("ecdsaSha256", bytes.fromhex("2A8648CE3D040302")),
+    ("unregistered", bytes.fromhex("2A030405")),
+    ("long_arc", bytes.fromhex("2BFFFFFFFF7F")),
+]
+
+
 def der_tree_ops(msg, rng, full=False):
     """structure-aware operators on the first certificate of a Certificate
     message: every TLV emptied / shortened / content-zeroed / duplicated,
@@ -531,4 +594,17 @@ def der_tree_ops(msg, rng, full=False):
             tlv = der[off:off + hl + ln]
             emit("dertree_dup:%s:%s" % (tn, where),
                  der_replace(der, nodes, i, tlv + tlv))
+    # algorithm and curve identifiers replaced by other registered (and by
+    # unregistered) object identifiers: well-formed certificates naming
+    # something the library or its back ends do not implement
+    for i in range(len(nodes)):
+        tag, off, hl, ln, depth, path = nodes[i]
+        if tag != 0x06 or depth > 4:
+            continue
+        content = der[off + hl:off + hl + ln]
+        for nm, oid in OIDS:
+            if oid == content:
+                continue
+            emit("dertree_oid:%s:d%d.%d" % (nm, depth, i),
+                 der_replace(der, nodes, i, bytes([6, len(oid)]) + oid))
     return ops
